@@ -338,8 +338,10 @@ class BaseProject(object, metaclass=ABCMeta):
                 )
             
             # Update state of task newly allocated workers and facilities (READY -> WORKING)
-            self.workflow.check_state(self.time, BaseTaskState.WORKING)
-            self.product.check_state()  # product should be checked after checking workflow state
+            # (absence time is dead time: nothing starts unless auto tasks are performed in it)
+            if working or perform_auto_task_while_absence_time:
+                self.workflow.check_state(self.time, BaseTaskState.WORKING)
+                self.product.check_state()  # product should be checked after checking workflow state
             if _verif_obs is not None:
                 _verif_obs(self, "allocated", working)
 
